@@ -124,6 +124,16 @@ class Agent(object):
     def now(self, clock):
         return int(self._send('now %d' % clock).split()[1])
 
+    def burn(self, ms):
+        """another thread of the agent process consumes `ms` milliseconds of CPU time and ends"""
+        self._send('burn %d' % ms)
+
+    def fsize(self, nbytes):
+        """soft RLIMIT_FSIZE of the agent process (None = back to the hard limit); SIGXFSZ is ignored"""
+        r = self._send('fsize %d' % (-1 if nbytes is None else nbytes))
+        if r != 'ok 0':
+            raise AgentDied('agent could not set RLIMIT_FSIZE: %r' % r)
+
     def call(self, fn, unstable, *args):
         if self.edge_mode and fn in EDGE_SPEC:
             return self._call_edge(fn, unstable, list(args))
